@@ -140,6 +140,8 @@ theorem applyRelocs_cases (cfg : LoaderCfg) (hh : Hardened cfg) : ∀ (k : Nat) 
 /-- the loader's own allocation of a buffer of `len` bytes succeeds (capacity 10485·2^k ≥ len stays within 4 GB) -/
 def CapOk (len : Nat) : Prop := ¬ newCap loadInitialSize 0 0 len > 2 ^ maxBufferSizeLog2
 
+instance (len : Nat) : Decidable (CapOk len) := by unfold CapOk; exact inferInstance
+
 theorem capOk_of_le {len : Nat} (h : len ≤ 2 ^ 31) : CapOk len := newCap_load_ok h
 
 theorem capOk_lt {len : Nat} (h : CapOk len) : len ≤ 2 ^ 32 := by
